@@ -182,90 +182,87 @@ Qed.
 Print Assumptions C04_rerun_after_interrupted_prepare_refuted.
 
 (* ---- ONE converter object, several method calls (process / check_NP24 / delete_NP24 /
-   assignment of the option attributes), exceptions caught in between ------------------- *)
+   assignment of the option attributes), exceptions caught in between; code after 899cbec
+   (check_completed cleared at the start of every check_NP24 and every NP2.4 run), 8b318aa
+   (compress_NP21 reopens the reader unsorted), 8925238 (process() refuses when the original is
+   gone).  obj_after ... cs = the object and the directory after the calls cs. ---------------- *)
 
-(* check_completed of an object is true only if some check_NP24 step executed by THIS object (in a
-   process() call or called directly) found every shank's ap.bin complete.  Any kind, any call
-   sequence, any interruptions. *)
-Theorem C04_object_check_completed_sound : forall kd n w cs ob fs,
-  ob_checked ob = false -> ob_checked (fst (obj_after kd n w ob fs cs)) = true ->
-  exists l1 m l2 rsv, obj_steps kd n w ob fs cs = l1 ++ SVerify m :: l2 /\
-    exec l1 (mkR fs false) = (rsv, None) /\
+(* The original is recoverable in every reachable state of every method-call sequence on one
+   object: NP2.4, any reachable directory, any options (also changed between calls), any number of
+   process() / check_NP24() / delete_NP24() calls in any order, each interrupted anywhere or not,
+   process() also with a shank file damaged before its verification.  (An interrupted call is a
+   call, so intermediate states are covered.  The model's adversary may not act inside a direct
+   check_NP24(): it could destroy the only copy after the original is gone.)  And, second half:
+   whenever check_completed is true, every shank's ap data (.bin, or .cbin+.ch) and metadata are
+   complete on disk AT THAT MOMENT — the flag can no longer be stale. *)
+Theorem C04_object_all_call_sequences_safe : forall n w compressed h o (c : bool) cs,
+  let fs := state_after NP24 n w (init_fs compressed) h in
+  input_state NP24 n fs (if c then TCbin else TBin) = Present ->
+  forallb admissible cs = true ->
+  let ob' := fst (obj_after NP24 n w (new_obj o c) fs cs) in
+  let fs' := snd (obj_after NP24 n w (new_obj o c) fs cs) in
+  fs' (PFile Orig FMeta) = Complete /\ (orig_ok fs' \/ shanks_ok n fs') /\
+  (ob_checked ob' = true -> shanks_ok n fs').
+Proof.
+  intros n w compressed h o c cs fs Hin Hall ob' fs'.
+  pose proof (history_inv NP24 n w h _ (init_inv NP24 n compressed)) as Hinv.
+  destruct (objI_seq n w cs (new_obj o c) fs Hall (new_obj_I n fs o c Hinv Hin))
+    as [_ [[A [_ [B | [_ B]]]] [K _]]]; auto.
+Qed.
+Print Assumptions C04_object_all_call_sequences_safe.
+
+(* check_completed true after an NP2.4 process() call that ran  ==>  a check_NP24 step of THIS call
+   found every shank ap.bin complete (the call clears the flag before _prepare_files_NP24). *)
+Theorem C04_object_check_completed_is_fresh : forall n w ob fs ow cr cp ob' o,
+  fs (PFile Orig (ob_tf ob)) <> Absent ->
+  obj_call NP24 n w ob fs (CProcess ow cr cp) = (ob', o) -> ob_checked ob' = true ->
+  exists l1 m l2 rsv, out_trace o = l1 ++ SVerify m :: l2 /\ exec l1 (mkR fs false) = (rsv, None) /\
     forall k, (k < m)%nat -> r_fs rsv (PFile (Shank k Ap) FBin) = Complete.
-Proof. exact object_check_completed_sound. Qed.
-Print Assumptions C04_object_check_completed_sound.
+Proof. exact process_flag_from_this_call. Qed.
+Print Assumptions C04_object_check_completed_is_fresh.
 
-(* ... but NOT "the last check_NP24 succeeded" (F-C04-e, faithful to the code: the flag is never
-   reset).  (a) a successful process(), then a direct check_NP24() on a damaged shank file fails and
-   leaves check_completed true; setting delete_original and calling delete_NP24() then removes the
-   original although shank 0 is damaged.  (b) without touching any attribute: process() interrupted
-   during compression (after its verification), process(overwrite=True) interrupted in the window
-   loop (shank files truncated), delete_NP24(): the original is gone and nothing complete is left. *)
-Theorem C04_object_check_completed_stale_refuted :
-  (let '(ob, fs) := obj_after NP24 1 3 (new_obj (mkO true false false) false) (init_fs false)
-                      [CProcess false None None; CCheck None (Some 0%nat)] in
-   ob_checked ob = true /\ fs (PFile (Shank 0 Ap) FBin) = Partial /\
-   out_outcome (nth 1 (obj_run NP24 1 3 (new_obj (mkO true false false) false) (init_fs false)
-                         [CProcess false None None; CCheck None (Some 0%nat)])
-                      (noop fs (Status 0) false)) = Raised EAssertion) /\
+(* A failing check_NP24() leaves check_completed False; delete_NP24() then does nothing.  (The
+   former F-C04-e witnesses, now positive: the calls that lost the original before 899cbec.) *)
+Theorem C04_object_failed_check_clears_flag :
   (let '(ob, fs) := obj_after NP24 1 3 (new_obj (mkO true false false) false) (init_fs false)
                       [CProcess false None None; CCheck None (Some 0%nat);
                        CSetOpts (mkO true true false); CDelete None] in
-   fs (PFile Orig FBin) = Absent /\ fs (PFile Orig FCbin) = Absent /\
-   fs (PFile (Shank 0 Ap) FBin) = Partial /\ fs (PFile (Shank 0 Ap) FCbin) = Absent) /\
+   ob_checked ob = false /\ fs (PFile Orig FBin) = Complete) /\
   (let '(ob, fs) := obj_after NP24 1 3 (new_obj (mkO true true true) false) (init_fs false)
-                      [CProcess false (Some 13%nat) None; CProcess true (Some 5%nat) None; CDelete None] in
-   fs (PFile Orig FBin) = Absent /\ fs (PFile Orig FCbin) = Absent /\
-   fs (PFile (Shank 0 Ap) FBin) = Partial /\ fs (PFile (Shank 0 Ap) FCbin) = Absent).
+                      [CProcess false (Some 14%nat) None; CProcess true (Some 5%nat) None; CDelete None] in
+   ob_checked ob = false /\ fs (PFile Orig FBin) = Complete).
 Proof. vm_compute. repeat split. Qed.
-Print Assumptions C04_object_check_completed_stale_refuted.
+Print Assumptions C04_object_failed_check_clears_flag.
 
-(* F-C04-d (faithful to the code): process() with post_check and delete_original completes and
-   removes the original; process(overwrite=True) on the SAME object then truncates the shank files
-   in _prepare_files_NP24 before it reads through the reader it has closed (the interpreter dies):
-   with compress=False nothing complete is left. *)
-Theorem C04_object_rerun_after_delete_refuted :
-  let cs := [CProcess false None None; CProcess true None None] in
-  let ob0 := new_obj (mkO true true false) false in
-  let '(ob, fs) := obj_after NP24 1 3 ob0 (init_fs false) cs in
-  out_outcome (nth 0 (obj_run NP24 1 3 ob0 (init_fs false) cs) (noop fs (Status 0) false)) = Status 1 /\
-  out_outcome (nth 1 (obj_run NP24 1 3 ob0 (init_fs false) cs) (noop fs (Status 0) false)) = Raised EOther /\
-  fs (PFile Orig FBin) = Absent /\ fs (PFile Orig FCbin) = Absent /\
-  fs (PFile (Shank 0 Ap) FBin) = Partial /\ fs (PFile (Shank 0 Ap) FCbin) = Absent.
-Proof. vm_compute. repeat split. Qed.
-Print Assumptions C04_object_rerun_after_delete_refuted.
+(* process() on an object whose original is gone (any kind, any flags) raises FileNotFoundError
+   before touching anything: the directory, the object and its flag are unchanged, no step runs.
+   (Former F-C04-d.) *)
+Theorem C04_object_process_without_original_raises : forall kd n w ob fs ow cr cp,
+  fs (PFile Orig (ob_tf ob)) = Absent ->
+  obj_call kd n w ob fs (CProcess ow cr cp) =
+  (ob, mkOut fs (Raised EFileNotFound) (ob_checked ob) 2 false []).
+Proof. exact process_without_original. Qed.
+Print Assumptions C04_object_process_without_original_raises.
 
-(* F-C04-f (faithful to the code): NP2.1, after compress_NP21 has reopened self.sr with the default
-   sort=True, a forced re-run on the same object returns 1 but the lf output does not have the
-   expected bytes (channels written in geometry order). *)
-Theorem C04_object_np21_reopened_reader_refuted :
+(* NP2.1: a forced re-run on the same object — in particular after its own compress_NP21 replaced
+   the original and reopened the reader — completes with status 1 and lf metadata and data with the
+   expected bytes (channels in disk order).  (Former F-C04-f.) *)
+Theorem C04_object_np21_forced_rerun_valid : forall n w' ob fs cp ob' o,
+  ob_closed ob = false -> fs (PFile Orig (ob_tf ob)) <> Absent ->
+  (ob_tf ob = FBin -> fs (PFile Orig FBin) = Complete) ->
+  obj_call NP21 n (S w') ob fs (CProcess true None cp) = (ob', o) ->
+  out_outcome o = Status 1 /\ out_fs o (PFile Lf21 FMeta) = Complete /\
+  out_ok (o_comp (ob_opts ob)) (out_fs o) Lf21.
+Proof. exact np21_object_forced_rerun. Qed.
+Print Assumptions C04_object_np21_forced_rerun_valid.
+
+Example C04_example_np21_same_object :
   let cs := [CProcess false None None; CProcess true None None] in
   let ob0 := new_obj (mkO false false true) false in
   let '(ob, fs) := obj_after NP21 0 2 ob0 (init_fs false) cs in
-  out_outcome (nth 1 (obj_run NP21 0 2 ob0 (init_fs false) cs) (noop fs (Status 0) false)) = Status 1 /\
-  ob_sorted ob = true /\ fs (PFile Lf21 FCbin) = Partial /\ orig_ok fs.
-Proof. vm_compute. repeat split. right. split; reflexivity. Qed.
-Print Assumptions C04_object_np21_reopened_reader_refuted.
-
-(* What does hold for one object: any number of process() calls — any overwrite flag, interrupted
-   anywhere, with or without a damaged shank file — with the options fixed at construction, on any
-   reachable directory: every call made while the object has not yet deleted the original leaves
-   the original recoverable (a stale check_completed cannot matter, because process() re-verifies
-   before delete_NP24 whenever post_check is set and never sets the flag otherwise). *)
-Theorem C04_object_process_sequences_safe : forall n w compressed h o (c : bool) cs ow cr cp,
-  let fs := state_after NP24 n w (init_fs compressed) h in
-  input_state NP24 n fs (if c then TCbin else TBin) = Present ->
-  forallb is_process cs = true ->
-  ob_closed (fst (obj_after NP24 n w (new_obj o c) fs cs)) = false ->
-  let fs' := snd (obj_after NP24 n w (new_obj o c) fs (cs ++ [CProcess ow cr cp])) in
-  fs' (PFile Orig FMeta) = Complete /\ (orig_ok fs' \/ shanks_ok n fs').
-Proof.
-  intros n w compressed h o c cs ow cr cp fs Hin Hall Hcl fs'.
-  pose proof (history_inv NP24 n w h _ (init_inv NP24 n compressed)) as Hinv.
-  destruct (object_process_sequences_safe n w cs ow cr cp (new_obj o c) fs Hall
-              (new_obj_J n fs o c Hinv Hin) Hcl) as [A [_ [B | [_ B]]]]; auto.
-Qed.
-Print Assumptions C04_object_process_sequences_safe.
+  ob_tf ob = FCbin /\ ob_closed ob = false /\ fs (PFile Lf21 FCbin) = Complete /\
+  fs (PFile Orig FCbin) = Complete /\ fs (PFile Orig FBin) = Absent.
+Proof. vm_compute. repeat split. Qed.
 
 (* Non-vacuity: a complete NP2.4 run with verification, compression and
    deletion from the fresh directory ends with the original gone, every shank
@@ -275,10 +272,10 @@ Example C04_example_full_run :
   let o := run_once NP24 2 2 (init_fs false) (mkRun TBin (mkO true true true) false None None) in
   out_outcome o = Status 1 /\ out_checked o = true /\ out_fs o (PFile Orig FBin) = Absent /\
   out_fs o (PFile (Shank 1 Ap) FCbin) = Complete /\ out_fs o (PFile (Shank 1 Ap) FBin) = Absent /\
-  length (out_trace o) = 36%nat.
+  length (out_trace o) = 37%nat.
 Proof. vm_compute. repeat split. Qed.
 
 Example C04_example_crash_before_delete :
-  let o := run_once NP24 2 2 (init_fs false) (mkRun TBin (mkO true true true) false (Some 35%nat) None) in
+  let o := run_once NP24 2 2 (init_fs false) (mkRun TBin (mkO true true true) false (Some 36%nat) None) in
   out_outcome o = Raised ECrash /\ out_checked o = true /\ out_fs o (PFile Orig FBin) = Complete.
 Proof. vm_compute. repeat split. Qed.
